@@ -244,6 +244,7 @@ def sharing_prefixes(rng: random.Random, pool: list) -> list[list[dict]]:
     names = sorted(set().union(*(e._variable_names for e in pool))) or ["x"]
     P, Q = wire.point(g.point(names)), wire.point(g.point(names))
     out = []
+    turn = rng.randrange(12)
     for t in range(len(pool)):
         vs = sorted(pool[t]._variable_names) or ["x"]
         x = rng.choice(vs)
@@ -251,18 +252,20 @@ def sharing_prefixes(rng: random.Random, pool: list) -> list[list[dict]]:
         for o in range(len(pool)):
             if o == t:
                 continue
-            kind = rng.choice(kinds)
-            first = rng.choice([{"op": "pobj_at", "j": 0, "i": t, "p": P, "x": x, "same": True}, {"op": "at", "i": t, "p": P, "x": x, "same": True},
-                                {"op": "diff_at", "i": t, "p": P, "x": x, "same": True}])
-            other = rng.choice(["at", "partial", "located", "diff_at", "component_at", "partial_early"])
-            out.append([{"op": "pobj_new", "i": t, "j": 0, "p": P, "x": x, "kind": kind}, dict(first),
-                        {"op": other, "i": o, "p": Q, "x": x},
-                        {"op": "pobj_at", "j": 0, "i": t, "p": P, "x": x, "same": True, "style": rng.randrange(3)},
-                        {"op": "located", "i": t, "p": P, "x": x, "same": True},
-                        {"op": "ld_new", "i": t, "j": -1, "k": 0, "p": P, "x": x, "same": True},
-                        {"op": other, "i": o, "p": Q, "x": x},
-                        {"op": "ld_query", "i": t, "k": 0, "p": P, "x": x},
-                        {"op": "component_at", "i": t, "p": P, "x": x, "same": True}])
+            for _ in range(2):
+              turn += 1
+              kind = kinds[turn % len(kinds)]           # every kind of object and every first step in turn, not by chance
+              first = (lambda opts: opts[(turn // len(kinds)) % len(opts)])([{"op": "pobj_at", "j": 0, "i": t, "p": P, "x": x, "same": True}, {"op": "at", "i": t, "p": P, "x": x, "same": True},
+                                  {"op": "diff_at", "i": t, "p": P, "x": x, "same": True}])
+              other = rng.choice(["at", "partial", "located", "diff_at", "component_at", "partial_early"])
+              out.append([{"op": "pobj_new", "i": t, "j": 0, "p": P, "x": x, "kind": kind}, dict(first),
+                          {"op": other, "i": o, "p": Q, "x": x},
+                          {"op": "pobj_at", "j": 0, "i": t, "p": P, "x": x, "same": True, "style": rng.randrange(3)},
+                          {"op": "located", "i": t, "p": P, "x": x, "same": True},
+                          {"op": "ld_new", "i": t, "j": -1, "k": 0, "p": P, "x": x, "same": True},
+                          {"op": other, "i": o, "p": Q, "x": x},
+                          {"op": "ld_query", "i": t, "k": 0, "p": P, "x": x},
+                          {"op": "component_at", "i": t, "p": P, "x": x, "same": True}])
     return out
 
 
